@@ -7,6 +7,7 @@ let dispatch kind args =
   | "binop" | "vmbinop" | "equal" | "vmequal" | "nequal" | "vmnequal" | "unop" | "vmunop" -> C15.run kind args
   | "skelvm" | "skelsem" -> C03.run kind args
   | "v1conv" | "v1reloc" -> C11.run kind args
+  | "enc" | "dec" -> C04.run kind args
   | _ -> failwith ("unknown kind " ^ kind)
 
 let () =
